@@ -28,6 +28,8 @@ pub enum COp {
     DropH0,
     DropH1,
     Read,
+    /// give the other threads a turn (n scheduler yields) before the next operation
+    Pause(u8),
     Push(char),
     PushStr(String),
     Insert(u8, char),
@@ -93,9 +95,61 @@ fn gen_cop(r: &mut Rng, borrowed: bool) -> COp {
     }
 }
 
-pub fn gen_program(r: &mut Rng) -> Program {
+pub fn gen_program(r: &mut Rng, directed_permille: usize, hammer_permille: usize) -> Program {
     let len = r.range(17, 64);
     let base = gen_text(r, len);
+    if r.below(1000) < hammer_permille {
+        // hammer (native runs): every thread takes and releases references to the one buffer in a tight
+        // loop, so that increments and decrements overlap in time thousands of times; then each thread
+        // edits its own handle. A lost or torn count update shows as a leaked / early-freed buffer or as
+        // one thread's edit appearing in another thread's text.
+        let nthreads = r.range(2, 3);
+        let k = r.range(40, 160);
+        let mut threads = Vec::new();
+        for _ in 0..nthreads {
+            let mut ops = Vec::with_capacity(2 * k + 2);
+            for _ in 0..k {
+                ops.push(COp::Clone);
+                ops.push(COp::DropH1);
+            }
+            ops.push([COp::Push('h'), COp::Remove(0), COp::Insert(0, 'i'), COp::Retain(6), COp::Pop][r.below(5)].clone());
+            ops.push(COp::Read);
+            threads.push((None, ops));
+        }
+        return Program { base, spare: [0usize, 8][r.below(2)], borrowed: false, threads, main_keeps_base: r.chance(1, 2) };
+    }
+    if r.below(1000) < directed_permille {
+        // directed pair: one thread reads and gives up its handle, the other runs ONE operation that
+        // decides between "copy" and "in place" by looking at the count - every such decision site in turn.
+        // With the count going 2 -> 1 under the operation, the in-place branch is only safe if the
+        // look synchronises with the other thread's release.
+        let sites = [
+            COp::Reserve(1),
+            COp::Reserve(40),
+            COp::Push('!'),
+            COp::PushStr("-tail".into()),
+            COp::Insert(0, 'i'),
+            COp::Remove(0),
+            COp::Retain(6),
+            COp::Truncate(200),
+            COp::Pop,
+            COp::Clear,
+            COp::ShrinkTo(0),
+            COp::ShrinkTo(17),
+            COp::ShrinkTo(len + 3),
+        ];
+        let op = sites[r.below(sites.len())].clone();
+        let mut giver = vec![COp::DropH0];
+        if r.chance(1, 2) {
+            giver.insert(0, COp::Read);
+        }
+        // without a pause the operation's look at the count always comes first (nothing precedes it)
+        let mut threads = vec![(None, giver), (None, vec![COp::Pause(r.below(4) as u8), op])];
+        if r.chance(1, 2) {
+            threads.swap(0, 1);
+        }
+        return Program { base, spare: [8usize, 40, 0][r.below(3)], borrowed: false, threads, main_keeps_base: false };
+    }
     let spare = [0usize, 0, 8, 40][r.below(4)];
     let borrowed = r.chance(1, 4);
     let nthreads = r.range(2, 3);
@@ -234,6 +288,11 @@ fn run_thread(tid: usize, seed: u64, mut l: Local, ops: &[COp], shared: Option<(
                 l.m[1] = None;
             }
             COp::Read => {}
+            COp::Pause(n) => {
+                for _ in 0..*n {
+                    std::thread::yield_now();
+                }
+            }
             COp::CloneShared => {
                 if let Some((s, m)) = shared {
                     l.h[0] = Some(s.clone());
@@ -449,6 +508,8 @@ pub fn engine_conc(a: &Args) {
     YIELD_PERMILLE.store(a.num("yield-permille", 300) as usize, Relaxed);
     SPIN.store(a.num("spin", 0) as usize, Relaxed);
     lean_string::verif_hooks::set_point(Some(point_cb));
+    let directed = a.num("directed-permille", 250) as usize;
+    let hammer = a.num("hammer-permille", 0) as usize;
     let mut nviol = 0u64;
     let mut total_execs = 0u64;
     let mut distinct_traces = SigSet::default();
@@ -459,7 +520,7 @@ pub fn engine_conc(a: &Args) {
     let mut prog_sigs = SigSet::default();
     for p in first..first + programs {
         let mut r = Rng::new(mix(seed, p));
-        let prog = gen_program(&mut r);
+        let prog = gen_program(&mut r, directed, hammer);
         if samples.len() < 4 {
             samples.push(format!("{:?}", prog));
         }
